@@ -278,6 +278,68 @@ def family(run, binary, jbin, base, n, rng, prop):
             run.broke('correspondence', 'spec-e2e', json.dumps(dict(rep, mismatch=o['mismatch'][:6], model={k: o['model'][k] for k in ('ok', 'ran', 'oks')}))[:3000])
 
 
+def gen_chain_spec(rng):
+    """A spec in the domain of C04_spec_twice: clean behaviours (same-time files skipped), pairwise distinct destinations,
+    no sync writes to the source or destination of an earlier one (a destination may feed a later sync: A -> B, B -> C)."""
+    s = Spec()
+    k = rng.choice([2, 3, 4, 5])
+    for i in range(k):
+        s.roots.append(None if (i > 0 and rng.random() < 0.3) else gen_tree(rng, i))
+    order = list(range(k))
+    rng.shuffle(order)
+    used_dst, touched = set(), set()
+    for _ in range(rng.choice([1, 2, 3, 4])):
+        cands = [(a, b) for a in range(k) for b in range(k)
+                 if a != b and b not in used_dst and b not in touched and s.roots[a] is not None]
+        if not cands:
+            break
+        a, b = rng.choice(cands)
+        job = {'src': a, 'dst': b, 'cfg': {'newer': 'A', 'older': 'A', 'same': 'S', 'entry': 'A', 'root': 'A'}, 'filters': [], 'excl_name': None}
+        if rng.random() < 0.25:
+            nm = rng.choice(['a', 'b', 'sub', 'f.txt'])
+            job['filters'] = ['-(.*/)?' + re.escape(nm)]
+            job['excl_name'] = nm
+        s.jobs.append(job)
+        used_dst.add(b)
+        touched |= {a, b}
+        # a later sync may read b (chain) but must not write to a or b: 'touched' blocks them as destinations only
+    return s
+
+
+def twice_family(run, binary, base, n, rng):
+    """C04 for specs: run the spec, then run it again; the second run must do nothing at all."""
+    for i in range(n):
+        spec = gen_chain_spec(rng)
+        if not spec.jobs:
+            continue
+        root = tempfile.mkdtemp(prefix='spec2_', dir=base)
+        try:
+            dirs = [os.path.join(root, 'r%d' % k) for k in range(len(spec.roots))]
+            for d, t in zip(dirs, spec.roots):
+                if t is not None:
+                    e2e.build_tree(d, t)
+            open(os.path.join(root, 'spec.yaml'), 'w').write(spec_yaml(spec, dirs))
+            r1 = e2e.run_cli(binary, ['--spec', os.path.join(root, 'spec.yaml')], env={}, timeout=120)
+            mid = [e2e.snapshot(d) for d in dirs]
+            r2 = e2e.run_cli(binary, ['--spec', os.path.join(root, 'spec.yaml')], env={}, timeout=120)
+            end = [e2e.snapshot(d) for d in dirs]
+            text2 = r2['stdout'] + r2['stderr']
+            run.count('spec-twice:first-exit:%s' % r1['exit'])
+            run.case(('spec-twice', i), True, sample={'jobs': [(j['src'], j['dst']) for j in spec.jobs], 'first': r1['exit'], 'second': r2['exit']} if i < 3 else None)
+            if r1['exit'] != 0:
+                continue
+            rep = {'family': 'spec-twice', 'spec': spec.to_json(), 'second_text': text2[-800:]}
+            if r2['exit'] != 0:
+                run.fail('C04: the second run of a spec that had exited 0 exits %s' % r2['exit'], rep)
+            elif end != mid:
+                bad = [k for k in range(len(dirs)) if end[k] != mid[k]]
+                run.fail('C04: the second run of a spec changed root(s) %s' % bad, rep)
+            elif text2.count('Nothing to do') != len(spec.jobs):
+                run.fail('C04: the second run of a spec with %d syncs reported "Nothing to do" %d times' % (len(spec.jobs), text2.count('Nothing to do')), rep)
+        finally:
+            shutil.rmtree(root, ignore_errors=True)
+
+
 if __name__ == '__main__':
     import random
     binary = vlib.build_impl()
